@@ -74,15 +74,21 @@ class Bare_get_etag:
 
 
 @contract("xandikos.store.git.BareGitStore.get_ctag",
-          params={"self": "obj:xandikos.store.git.BareGitStore"}, returns="str")
+          params={"self": "obj:xandikos.store.git.BareGitStore"}, returns="str", modifies=["self.repo"])
 class Bare_get_ctag:
-    """C08: the tag is the hash of the whole current tree (members and metadata entry)."""
+    """C08: the tag is the hash of the whole current tree (members and metadata entry).
+    C07: the tree it names is in the object store, so the tag can be presented later."""
 
     def requires(self):
         return rep_bare(self.repo)
 
     def ensures(self, result):
-        return result == tree_id_of(head_tree_entries(self.repo)).decode("ascii")
+        return (result == tree_id_of(head_tree_entries(self.repo)).decode("ascii")
+                and repo_has(self.repo, tree_id_of(head_tree_entries(self.repo)))
+                and self.ghost_M == old(self.ghost_M)
+                and repo_head(self.repo) == old(repo_head(self.repo))
+                and repo_ncommits(self.repo) == old(repo_ncommits(self.repo))
+                and forall("bytes", lambda o: implies(o in old(repo_objects(self.repo)), o in repo_objects(self.repo))))
 
 
 @contract("xandikos.store.git.BareGitStore.delete_one",
